@@ -154,6 +154,7 @@ struct ExModel {
 	// ---- text input for a/i/c/rs
 	bool starved = false;	// a text block was needed but the input ended before its "."
 	bool pending_soft = false, murky = false;	// see exec()
+	bool overflow = false;	// a global made the buffer grow beyond what the (linear-time) model is meant for
 	std::vector<std::string> read_block()
 	{
 		std::vector<std::string> t;
@@ -438,6 +439,7 @@ struct ExModel {
 			if (n() > 0) for (int i = a; i <= b; i++) ids.push_back(ln[(size_t) i - 1].id);
 			gdepth++;
 			for (long id : ids) {
+				if (n() > 3000) { overflow = true; break; }	// (the check abandons such a plan: see ex.cpp)
 				int at = find_id(id);
 				if (!at) continue;			// the line no longer exists
 				if (line_matches(gp, ln[(size_t) at - 1].text) == inv) continue;
